@@ -325,6 +325,7 @@ def run(cr: CheckRun) -> None:
                          f"{nbad} second operands disagree with the README function for this (a, carry)",
                          {"kind": "table", "mn": mn, "form": form, "a": a, "b": b, "c": c})
     cr.cov["programs"] = nexec + ntab
+    cr.cov["traces_validated_against_impl"] = nexec          # one-step executions of the real code judged against the specification
     cr.cov["evaluations"] = nexec + ntab
     cr.cov["distinct_nontrivial"] = len(encs)
     cr.cov["table_entries"] = ntab
